@@ -25,11 +25,22 @@ def _fmt_harness(fmt):
         has_chg = v.bool("has_charge")
         m = v.int("hydrate_multiplier", lo=1, hi=99)
         v.assume(SP.neg(chg == 0))
-        v.contract(parsing._formula_to_parts, "_formula_to_parts", None,
-                   lambda v_, formula, prefixes, suffixes: ["Na2CO3..XH2.5O", ("+tok" if v_.path.branch(has_chg.e) else None), (".", "alpha-"), ("(s)",)])
-        v.contract(parsing._get_leading_integer, "_get_leading_integer", None, lambda v_, s: (m, "H2.5O"))
-        v.contract(parsing._get_charge, "_get_charge", None, lambda v_, tok: chg)
-        r = v.call(fn, "ignored")
+        seen = {"parts": [], "leading": [], "charge": []}
+
+        def parts_stub(v_, formula, prefixes, suffixes):
+            seen["parts"].append((formula, sorted(prefixes), tuple(suffixes)))
+            return ["Na2CO3..XH2.5O", ("+tok" if v_.path.branch(has_chg.e) else None), (".", "alpha-"), ("(s)",)]
+        v.contract(parsing._formula_to_parts, "_formula_to_parts", None, parts_stub)
+        v.contract(parsing._get_leading_integer, "_get_leading_integer", None, lambda v_, s: (seen["leading"].append(s), (m, "H2.5O"))[1])
+        v.contract(parsing._get_charge, "_get_charge", None, lambda v_, tok: (seen["charge"].append(tok), chg)[1])
+        given = "the{formula}as_given" if fmt == "latex" else "the_formula_as_given"
+        r = v.call(fn, given)
+        # what the helpers receive: the formula as given (LaTeX: with its braces escaped), every prefix of THIS format's table, the four standard suffixes;
+        # only the part after the hydrate separator may carry a count; the charge token goes to _get_charge
+        table = {"latex": parsing._latex_mapping, "unicode": parsing._unicode_mapping, "html": parsing._html_mapping}[fmt]
+        want_formula = given.replace("{", "\\{").replace("}", "\\}") if fmt == "latex" else given
+        v.prove("helpers_get_the_right_arguments", seen["parts"] == [(want_formula, sorted(table.keys()), ("(s)", "(l)", "(g)", "(aq)"))] and seen["leading"] == ["XH2.5O"]
+                and seen["charge"] in ([], ["+tok"]), detail=repr(seen))
         sub = {"latex": lambda x: "_{%s}" % x, "html": lambda x: "<sub>%s</sub>" % x, "unicode": lambda x: "".join("₀₁₂₃₄₅₆₇₈₉"[int(c)] if c != "." else "." for c in x)}[fmt]
         pre = {"latex": "^\\bullet \\alpha-", "html": "&sdot;&alpha;-", "unicode": "⋅α-"}[fmt]
         infix = {"latex": "\\cdot ", "html": "&sdot;", "unicode": "·"}[fmt]
